@@ -252,6 +252,15 @@ KF27(impl, st, c) ==
         ELSE {}
     ELSE {}
 
+(* KF29  MemFS gives every path resolution one budget of 64 symbolic links; the kernel follows at most 40
+         and filepath.EvalSymlinks at most 255.  Chains of 41..64 links resolve on MemFS where Linux answers
+         ELOOP, and EvalSymlinks gives up after 64 where Go goes on to 255. *)
+KF29(impl, st, c) ==
+    IF Mem(impl) /\ c.op \notin HOps THEN
+        LET o == NsApply([st EXCEPT !.lb = MemLinkBudget, !.elb = MemLinkBudget], c) IN
+        {Dev("KF29", [res |-> o.res, st |-> [o.st EXCEPT !.lb = st.lb, !.elb = st.elb]], "ok", FALSE)}
+    ELSE {}
+
 \* DEVIATIONS-END
 
 KFTable(impl, st, c) ==
@@ -260,9 +269,9 @@ KFTable(impl, st, c) ==
      KF07 |-> KF07(impl, st, c), KF08 |-> KF08(impl, st, c), KF10 |-> KF10(impl, st, c),
      KF11 |-> KF11(impl, st, c), KF12 |-> KF12(impl, st, c), KF13 |-> KF13(impl, st, c),
      KF14 |-> KF14(impl, st, c), KF21 |-> KF21(impl, st, c), KF22 |-> KF22(impl, st, c) \cup KF22and24(impl, st, c),
-     KF24 |-> KF24(impl, st, c), KF25 |-> KF25(impl, st, c), KF27 |-> KF27(impl, st, c)]
+     KF24 |-> KF24(impl, st, c), KF25 |-> KF25(impl, st, c), KF27 |-> KF27(impl, st, c), KF29 |-> KF29(impl, st, c)]
 
-AllKF == {"KF01", "KF02", "KF03", "KF04", "KF05", "KF06", "KF07", "KF08", "KF10", "KF11", "KF12", "KF13", "KF14", "KF21", "KF22", "KF24", "KF25", "KF27"}
+AllKF == {"KF01", "KF02", "KF03", "KF04", "KF05", "KF06", "KF07", "KF08", "KF10", "KF11", "KF12", "KF13", "KF14", "KF21", "KF22", "KF24", "KF25", "KF27", "KF29"}
 
 DevOutcomes(impl, st, c) ==
     LET t == KFTable(impl, st, c) IN UNION {t[k] : k \in (OpenKF \cap DOMAIN t)}
